@@ -72,6 +72,32 @@ def run_sweep(ctx, flavors, offsets):
     m.close()
 
 
+def run_big(ctx, flavors):
+    """single contiguous values of 64 KiB and more, as a step value and as stream items"""
+    pkg, cases = corpus.big_package()
+    m = rt.prepare_model(ctx, "bigvals", pkg, flavors)
+    if m is None:
+        raise common.Inconclusive("big-value model did not build")
+    c = m.codec
+
+    def one(case):
+        pname, t, v = case
+        proto = pkg.find(pname)
+        for k, (items, parts) in enumerate([([v], None), ([v, v], {2: [1, 1]}), ([], None)]):
+            vals = [0xCAFE, v, items, "tail-ü"]
+            data = c.encode_stream(proto, m.schema(pname), vals, partitions=parts)
+            for fl in flavors:
+                ep = rt.CppEndpoint(m, fl)
+                r = ep.copy(pname, "bin", "bin", data)
+                ctx.ev()
+                ctx.count("big." + ep.name)
+                rt.judge(ctx, m, proto, vals, data, r, ep.name, "bin", "big value %s (%d bytes, variant %d)" % (pname, len(data), k), {"big": pname})
+            ctx.case(("big", pname, k))
+    pmap(one, cases)
+    ctx.sample({"big_values": [(n, len(m.codec.encode_stream(pkg.find(n), "{}", [0, v, [], ""]))) for n, t, v in cases]})
+    m.close()
+
+
 def run(ctx):
     common.build_yardl()
     quick = ctx.tier == "quick"
@@ -96,6 +122,7 @@ def run(ctx):
 
     pmap(work, keys, workers=6)
     run_sweep(ctx, ["plain", "asan"], range(-12, 3))
+    run_big(ctx, ["plain", "asan"])
     cxx.prune_cache()
 
 
